@@ -291,6 +291,11 @@ def run(ctx):
     rule_r3(facts, ctx)
     rule_r4(facts, ctx)
     ctx.floor("C09.R4", 30, "WaitForStream sites whose controlling test is a plain short-window test on the awaited stream")
+    from .. import controls
+    controls.expect(ctx, "C09.R1", rule_r1, "Hoarder.cached", "struct field holding a BufferWriter")
+    controls.expect(ctx, "C09.R2", rule_r2, "IdleAgain", "Again on full output without progress")
+    controls.expect(ctx, "C09.R3", rule_r3, "WrongWait", "waits on src when dst is empty")
+    controls.expect(ctx, "C09.R4", rule_r4, "WrongWait", "waits for `need` after testing `need + 3`")
     ctx.floor("C09.R1", 200, "ADT fields of the crate")
     ctx.floor("C09.R2", 50, "Again return sites / work bodies (56 work bodies)")
     ctx.floor("C09.R3", 40, "WaitForStream return sites with a plain short-window controlling test")
